@@ -20,7 +20,7 @@ from lib import zlit, vlist
 import sim_machine_c09 as sim
 
 LEVEL = "proof"
-UNITS = ["GenRegions", "GenLoad"]
+UNITS = ["GenRegions", "GenLoad", "GenLoadShape"]
 IDLE = [15, 0, []]
 WAIT, RUN = 5, 7
 POOL = [(0, 0), (1, 0), (0, 1), (1, 1), (2, 3), (3, 3), (4, 0), (7, 5), (8, 8), (15, 15), (16, 0), (63, 63),
@@ -450,6 +450,24 @@ def eval_histories(chk, items, shard):
     return vals
 
 
+def message_cores(msg):
+    """The cores "(x, y, p)" a SpiNNakerLoadingError message lists, in order."""
+    import re
+    return [[int(v) for v in mt] for mt in re.findall(r"\((\d+), (\d+), (\d+)\)", msg or "")]
+
+
+def chip_runs_sorted(cores):
+    """Sort each maximal run of cores of one chip (a set's iteration order is not part of the model)."""
+    out, i = [], 0
+    while i < len(cores):
+        j = i
+        while j < len(cores) and cores[j][:2] == cores[i][:2]:
+            j += 1
+        out += sorted(cores[i:j])
+        i = j
+    return out
+
+
 def model_map(u, vmap):
     """The model's unloaded map, its version indices translated back to path indices."""
     back = {v: b for b, v in vmap.items()}
@@ -819,7 +837,7 @@ def run(chk, args):
                             chk.disagree("model stops before call %d, implementation: %r" % (ci, res),
                                          dict(case=c, call=ci))
                         break
-                    mo, nn, td, st_ok = obs[ci]
+                    mo, nn, td, st_ok, ecores = obs[ci]
                     tag = mo[0]
                     want = {"ok": "CReturned", "loaderr": "CLoadingError", "other": "COther"}.get(res[0])
                     why = None
@@ -827,6 +845,10 @@ def run(chk, args):
                         why = "outcome: model %s, implementation %r" % (tag, res)
                     elif res[0] == "loaderr" and model_map(mo[1], vmaps[ci]) != res[1]:
                         why = "unloaded map: model %r, implementation %r" % (model_map(mo[1], vmaps[ci]), res[1])
+                    elif res[0] == "loaderr" and oc.get("message") is not None and \
+                            chip_runs_sorted(message_cores(oc["message"])) != chip_runs_sorted([list(t) for t in ecores]):
+                        why = "cores listed by str(error): model %r, implementation %r" % (
+                            [list(t) for t in ecores][:10], message_cores(oc["message"])[:10])
                     elif res[0] != "other" and (td != -1 or not st_ok or nn != oc["nn_id"]):
                         why = ("packet trace differs at index %d" % td if td != -1 else
                                "final core states differ" if not st_ok else
